@@ -310,7 +310,7 @@ func checkTypedValueCache(r *Reporter, p *Prog) {
 					if !ok || id.Name != "ErrKeyNotFound" {
 						return false
 					}
-					dc := definingCall(info, f.Body, c.Args[0])
+					dc := f.ReachingCall(c, c.Args[0])
 					return dc != nil && matchCall(dc, "kv.Get")
 				})
 				if wit, ok := f.OnlyThroughEdges(w, edges); ok {
